@@ -130,8 +130,8 @@ fn skip_case(block: usize) {
 //@ props: C09
 //@ tier: quick
 //@ funcs: query::wand::TermState::skip_to_block, TermState::new, build_block_meta
-//@ symbolic: 4 postings (increasing doc ids, tf 1..3), target doc id (any u32); block sizes 1, 2 and 3
-//@ bounds: 4 postings, block sizes 1..3
+//@ symbolic: 4 postings (increasing doc ids, tf 1..3), target doc id (any u32); block sizes 1, 2, 3 and 4 (= the list length)
+//@ bounds: 4 postings, block sizes 1..4
 //@ oracle: skip_to_block(t) never passes a posting whose doc id is >= t, moves in whole blocks, and reports the distance moved
 //@ assumes: bm25 replaced by a monotone surrogate
 #[kani::proof]
@@ -141,6 +141,7 @@ fn c09_skip_to_block_never_passes_target() {
   skip_case(1);
   skip_case(2);
   skip_case(3);
+  skip_case(4);
 }
 
 fn bounds_case(block: usize) {
@@ -165,8 +166,8 @@ fn bounds_case(block: usize) {
 //@ props: C09
 //@ tier: quick
 //@ funcs: query::wand::TermState::new, build_block_meta, TermState::score_current, TermState::block_upper_bound, TermState::upper_bound, score_tf, upper_bound_tf
-//@ symbolic: 4 postings (increasing doc ids, tf 1..3); block sizes 1, 2 and 3
-//@ bounds: 4 postings, every position, block sizes 1..3
+//@ symbolic: 4 postings (increasing doc ids, tf 1..3); block sizes 1..5 (smaller than, equal to and larger than the list)
+//@ bounds: 4 postings, every position, block sizes 1..5
 //@ oracle: at every position score_current <= block_upper_bound <= upper_bound (the two inequalities WAND / block-max WAND pruning relies on)
 //@ assumes: bm25 replaced by a monotone surrogate (tf*16 - doc_len); weight 1; max_tf as recorded by the postings writer (maximum term frequency)
 //@ outside: per-document lengths (doc_lengths = None), real BM25 numerics
@@ -177,6 +178,8 @@ fn c09_score_bounds_ordered() {
   bounds_case(1);
   bounds_case(2);
   bounds_case(3);
+  bounds_case(4);
+  bounds_case(5);
 }
 
 //@ props: C09, C10
